@@ -496,8 +496,12 @@ Fixpoint nlook (c : list (N * N)) (k : N) : option N :=
 Definition is_check (a : N) : bool := N.eqb a 0 || N.eqb a 1.
 
 (* does the request pass through any cache at all *)
+(* With the weighted-graph flag on, Server.Check / BatchCheck FALL BACK to the default engine - with
+   all of its caches: query cache, check iterator cache, shared iterators - whenever the weighted-graph
+   check returns a non-terminal error (a request shape it refuses, e.g. a userset subject under an
+   exclusion; a datastore error): a Check may pass through the shared iterators under either engine. *)
 Definition caches_on (c : rcfg) (a : N) : bool :=
-  if is_check a then r_query c || r_iter c || (r_shared c && negb (r_v2 c))
+  if is_check a then r_query c || r_iter c || r_shared c
   else if N.eqb a 2 then r_query c || r_lo_iter c || r_shared c
   else false.
 
@@ -522,7 +526,7 @@ Definition forget (ks : list N) (top : list (N * N)) : list (N * N) :=
 
 (* a cached request whose reads go through the shared iterators *)
 Definition through_shared (c : rcfg) (r : rreq) : bool :=
-  r_shared c && ((is_check (rq_api r) && negb (r_v2 c)) || N.eqb (rq_api r) 2).
+  r_shared c && (is_check (rq_api r) || N.eqb (rq_api r) 2).
 
 Definition predict0 (c : rcfg) (st : rstate) (r : rreq) : prediction :=
   if rq_hi r then PExact (rq_ref r)
